@@ -604,6 +604,15 @@ func (o *MaryTransactionOutput) UnmarshalCBOR(cborData []byte) error {
 	return nil
 }
 
+// MarshalCBOR returns the stored CBOR of a decoded output so that
+// re-serialising it reproduces the wire bytes (as the transaction body does)
+func (o *MaryTransactionOutput) MarshalCBOR() ([]byte, error) {
+	if o.Cbor() != nil {
+		return o.Cbor(), nil
+	}
+	return cbor.EncodeGeneric(o)
+}
+
 func (o MaryTransactionOutput) MarshalJSON() ([]byte, error) {
 	tmpObj := struct {
 		Address common.Address                                  `json:"address"`
